@@ -43,3 +43,28 @@ Example C13_instance :
   | _ => False
   end.
 Proof. vm_compute. split; reflexivity. Qed.
+
+(* ---------- one transform proved end to end: ZRLT (transform/ZRLT.go, Model/ZRLT.v) ---------- *)
+From KV Require Import Model.ZRLT Proofs.ZRLTProofs.
+Open Scope N_scope.
+
+(* for EVERY non-empty block of bytes: if Forward succeeds its output is not longer than the block
+   (it never expands) and not empty, and Inverse into any destination that can hold the block
+   returns the block exactly *)
+Theorem C13_zrlt_exact_inverse : forall src dcap enc, bytes256 src -> src <> [] -> 0 < dcap -> zfwd src dcap = Some enc ->
+  (length enc <= length src)%nat /\ enc <> [] /\
+  forall dcap2, N.of_nat (length src) <= dcap2 -> zinv enc dcap2 = Some src.
+Proof. exact zrlt_roundtrip. Qed.
+Print Assumptions C13_zrlt_exact_inverse.
+
+(* hence ZRLT keeps the stage contract of the sequence theorem: any chain of ZRLT and other
+   contract-keeping stages round-trips *)
+Theorem C13_zrlt_keeps_the_stage_contract : good zrlt_stage.
+Proof. exact zrlt_stage_good. Qed.
+Print Assumptions C13_zrlt_keeps_the_stage_contract.
+
+Example C13_zrlt_instance :
+  zfwd [7; 0; 0; 0; 0; 0; 255; 0; 254; 3; 0; 0; 0] 13 = Some [8; 1; 0; 255; 1; 0; 255; 0; 4; 0; 0] /\
+  zinv [8; 1; 0; 255; 1; 0; 255; 0; 4; 0; 0] 13 = Some [7; 0; 0; 0; 0; 0; 255; 0; 254; 3; 0; 0; 0] /\
+  zfwd [1; 2; 3; 255] 4 = None.
+Proof. vm_compute. repeat split; reflexivity. Qed.
